@@ -118,9 +118,37 @@ def programs(tier, seed):
                         yield idx, build_prog(cA, cB, items, bbody,
                                               b_by_main)
                         idx += 1
-    for p in two_clock_programs():
+    for p in two_clock_programs() + spawn_programs():
         yield idx, p
         idx += 1
+
+
+def spawn_programs():
+    """A seeded routine A creates a child C inside its body (the child
+    inherits A's generator object); the child gives itself its own seed and
+    draws k values; A draws before and after.  A's values must be those of
+    A alone (the independence pass removes the spawn)."""
+    out = []
+    for c in ('s', 't2', 'a'):
+        for k in (0, 1, 3):
+            for child_seed in (3, 7):
+                clocks = {'s': ['system']}
+                clocks[c] = c05.CLOCKSPEC[c]
+                out.append({
+                    'clocks': clocks,
+                    'routines': {
+                        'A': [['seed', 7], ['rand', 'rrand'],
+                              ['spawn', 'C', c], ['yield', 0.25],
+                              ['rand', 'rrand'], ['rand', 'choice'],
+                              ['yield', 0.25], ['rand', 'rand']],
+                        'B': [['seed', 9]]},
+                    'spawned': {'C': [['seed', child_seed]] +
+                                [['rand', 'rrand']] * k +
+                                [['yield', 0.125], ['rand', 'rrand']]},
+                    'funcs': {}, 'conds': ['c0'], 'spawn': True,
+                    'actors': {'main': [['play', 'A', c, 0]]},
+                    'horizon': 8.0})
+    return out
 
 
 def two_clock_programs():
@@ -274,6 +302,8 @@ def silence_others(prog):
     p = dict(prog)
     r = dict(p['routines'])
     r['B'] = [st for st in r['B'] if st[0] not in ('rand',)]
+    # a child that seeds itself is an "other routine" too: drop it entirely
+    r['A'] = [st for st in r['A'] if st[0] != 'spawn']
     p['routines'] = r
     return p
 
@@ -446,8 +476,9 @@ def main(ctx):
         ctx.bounds[f'nrt determinism hashseed {hs}'] = {'programs': n}
         ctx.evaluations += n
     # random stream independence
-    rnd = [(i, p) for i, p in progs
-           if len(p['routines']['A']) < 8 and any(st[0] == 'rand' for st in p['routines']['A'])
+    rnd = [(i, p) for i, p in progs if p.get('spawn')] + \
+          [(i, p) for i, p in progs
+           if len(p['routines']['A']) < 8 and not p.get('spawn') and any(st[0] == 'rand' for st in p['routines']['A'])
            and any(st[0] == 'rand' for st in p['routines']['B'])]
     progenum.run(ctx, MODNAME, 'work_indep',
                  [{'progs': b} for b in chunked(rnd, 200)], mode='nrt',
